@@ -160,6 +160,9 @@ func (sc *serverConn) Handshake() error {
 func (sc *serverConn) Serve() error {
 	sc.closer = make(chan struct{}, 1)
 	sc.writeStop = make(chan struct{})
+	// Made before any timer is armed: write() selects on it, and the ping and
+	// idle timers call write() from goroutines of their own.
+	sc.writeDone = make(chan struct{})
 	sc.handlerDone = make(chan *Stream, 128)
 	sc.handlerStop = make(chan struct{})
 	// Created disarmed. time.NewTimer(0) fires at once, and with no read
@@ -194,7 +197,6 @@ func (sc *serverConn) Serve() error {
 	}()
 
 	// writeDone lets the teardown wait for queued frames to reach the socket.
-	sc.writeDone = make(chan struct{})
 	writeDone := sc.writeDone
 
 	go func() {
